@@ -99,6 +99,23 @@ theorem key_proof_names_cover (o : GroupOps G) (H : List ByteArray → Int) (pk 
         simp only [List.any_eq_true]
         exact ⟨k, hk, by simpa using hc⟩
 
+/-- **an accepted key has an invertible `S`** (repaired in /repo): the holder's check succeeds
+only if `S⁻¹ mod n` exists. For `S = 0` every recomputed commitment `Z^{-c}·S^{x̂z}`,
+`R^{-c}·S^{x̂r}` vanishes whatever `Z` and the `R_k` are, so before the repair anybody could write
+an accepted proof for such a key (stream `keyforge`, variant `s_zero_forgery`). -/
+theorem key_check_requires_invertible_s (o : GroupOps G) (H : List ByteArray → Int) (pk : PubKey G)
+    (p : KeyProof) (h : checkKeyProof o H pk p = .ok true) : ∃ si, o.inv pk.s = .ok si := by
+  unfold checkKeyProof at h
+  simp only at h
+  split at h
+  · simp at h
+  · split at h
+    · simp at h
+    · cases hs : o.inv pk.s with
+      | ok si => exact ⟨si, rfl⟩
+      | err => rw [hs] at h; simp [Outcome.bind] at h
+      | panic => rw [hs] at h; simp [Outcome.bind] at h
+
 end logic
 
 section algebra
